@@ -787,6 +787,7 @@ impl<'a> Gen<'a> {
 
 pub const POLICY_A: [u8; 28] = [0xA1; 28];
 pub const POLICY_B: [u8; 28] = [0xB2; 28];
+pub const POLICY_C: [u8; 28] = [0xC3; 28];
 
 /// What the environment of one execution looks like besides the program
 #[derive(Debug, Clone, Serialize, Deserialize, PartialEq)]
@@ -821,7 +822,7 @@ fn ensure_n(prog: &mut GProg) -> IntE {
 }
 
 fn int_leaf(g: &mut Gen, point: &str, prog: &mut GProg) -> IntE {
-    let alts = ["q", "lit", "lit+q", "q-lit", "paren", "env", "local", "neg-neg"];
+    let alts = ["q", "lit", "lit+q", "q-lit", "paren", "env", "local", "neg-neg", "slot_to_time-before-tip"];
     match alts[g.pick(point, &alts)] {
         "q" => IntE::Param("q".into()),
         "lit" => IntE::Lit(1500000),
@@ -836,6 +837,7 @@ fn int_leaf(g: &mut Gen, point: &str, prog: &mut GProg) -> IntE {
             ensure_local_int(prog);
             IntE::Local("bonus".into())
         }
+        "slot_to_time-before-tip" => IntE::SlotToTime(Box::new(IntE::Lit(4321))),
         _ => IntE::Neg(Box::new(IntE::Neg(Box::new(IntE::Param("q".into()))))),
     }
 }
@@ -1230,13 +1232,20 @@ pub fn generate(c: &mut Chooser) -> Scenario {
     }
 
     // extra output
-    match g.pick("extra-output", &["none", "optional-empty", "optional-paid", "third"]) {
+    match g.pick("extra-output", &["none", "optional-empty", "optional-paid", "third", "optional-tokens-only"]) {
         0 => {}
         1 => prog.outputs.push(GOutput { name: None, optional: true, to: AddrE::Party(receiver.to_string()), amount: AssetE::Ada(IntE::Lit(0)), datum: None }),
         2 => {
             prog.outputs.insert(1, GOutput { name: None, optional: true, to: AddrE::Party(receiver.to_string()), amount: AssetE::Ada(IntE::Lit(1000000)), datum: None });
             let last = prog.outputs.len() - 1;
             prog.outputs[last].amount = AssetE::Sub(Box::new(prog.outputs[last].amount.clone()), Box::new(AssetE::Ada(IntE::Lit(1000000))));
+        }
+        // an optional output that carries native tokens and no lovelace is not empty; the tokens come from a mint of
+        // their own, so the transaction balances only if the output is kept
+        4 => {
+            let m = AssetE::AnyAsset(BytesE::Hex(POLICY_C.to_vec()), BytesE::Str("BRONZE".into()), IntE::Lit(3));
+            prog.mints.push(GMint { amount: m.clone(), redeemer: DataE::Unit, no_redeemer: false });
+            prog.outputs.insert(1, GOutput { name: None, optional: true, to: AddrE::Party(receiver.to_string()), amount: m, datum: None });
         }
         _ => {
             prog.outputs.insert(0, GOutput { name: None, optional: false, to: AddrE::Party(receiver.to_string()), amount: AssetE::Ada(IntE::Lit(1111111)), datum: Some(DataE::Int(IntE::Lit(3))) });
@@ -1246,7 +1255,7 @@ pub fn generate(c: &mut Chooser) -> Scenario {
     }
 
     // validity
-    match g.pick("validity", &["none", "until-lit", "since+until", "until-param", "tip+offset", "time_to_slot", "slot_to_time-roundtrip", "until-n", "since-n", "time_to_slot-n"]) {
+    match g.pick("validity", &["none", "until-lit", "since+until", "until-param", "tip+offset", "time_to_slot", "slot_to_time-roundtrip", "until-n", "since-n", "time_to_slot-n", "slot_to_time-before-tip", "slot_to_time-n"]) {
         0 => {}
         1 => prog.until = Some(IntE::Lit(90_000)),
         2 => {
@@ -1262,6 +1271,9 @@ pub fn generate(c: &mut Chooser) -> Scenario {
         7 => prog.until = Some(ensure_n(&mut prog)),
         8 => prog.since = Some(IntE::Sub(Box::new(ensure_n(&mut prog)), Box::new(IntE::Lit(1)))),
         9 => prog.until = Some(IntE::TimeToSlot(Box::new(IntE::Add(Box::new(IntE::Lit(1_700_000_000_000)), Box::new(ensure_n(&mut prog)))))),
+        // a slot before the tip has an earlier time, not the tip's
+        10 => prog.until = Some(IntE::TimeToSlot(Box::new(IntE::SlotToTime(Box::new(IntE::Lit(1234)))))),
+        11 => prog.until = Some(IntE::TimeToSlot(Box::new(IntE::SlotToTime(Box::new(ensure_n(&mut prog)))))),
         _ => prog.until = Some(IntE::TimeToSlot(Box::new(IntE::SlotToTime(Box::new(IntE::Lit(7777)))))),
     }
 
